@@ -124,6 +124,7 @@ def sib_atomistic_level(repo, tier="quick"):
     for call, nid, _ in rf:
         ct = fl.canon(call, nid)
         aa = dict(ct[4]).get("all_atom", ct[3][1] if len(ct[3]) > 1 else None)
+        aa = (fl.diamond(aa, nid) or aa) if aa is not None else aa
         s = ct[3][0] if ct[3] else None
         es = elem_of(s) if s else None
         ok = False
@@ -406,8 +407,10 @@ def sib_constructors(repo, tier="quick"):
              if got == ("param", "last_all_atom") else
              obs.append(ob_fail(oid, fi, call, construct="read_fragment_strings(..., last_all_atom=%s)" % (show(got) if got else "<default>"),
                                 instance="%s:reader-flag" % name, reason="the fragment reader does not get the caller's last_all_atom")))
-        for call, nid, _ in fl.calls_to("re.findall"):
+        for call, nid in fl.calls():
             ct = fl.canon(call, nid)
+            if ct[2] != ("ext", "re.findall"):
+                continue
             if ct[3] and ct[3][0][0] == "const":
                 regexes[name] = (ct[3][0][1], ct[3][1] if len(ct[3]) > 1 else None, fi, call)
     need(len(regexes) == 3, "anchor vanished: not all three constructors split levels with re.findall(<literal>, cgsmiles_str)", None)
